@@ -127,6 +127,10 @@ def check(case):
             out.cls('no-contribution')
             return out
         m = cut(out, 'build-model', synth.make_model, W, 'transmission', contribs, **kw)
+        from vlib.props.c01 import zero_corner_ambiguous
+        if zero_corner_ambiguous(W, m):
+            out.cls('ambiguous-zero-corner')
+            return out
         cnames = [c.name for c in m.contribution_list]
         out.cls('ncontrib>=2' if len(cnames) >= 2 else 'ncontrib=1')
         # ---- the per-component probe, possibly on a fresh model --------------------------
